@@ -18,6 +18,7 @@ import (
 	"strings"
 
 	"github.com/semihalev/sdns/internal/verif/vlib"
+	"github.com/semihalev/sdns/server"
 )
 
 func exec(op string) vlib.Res {
@@ -34,6 +35,11 @@ func exec(op string) vlib.Res {
 		return execLease(f)
 	case "chain":
 		return execChain(f)
+	case "carrier":
+		ops := strings.Split(f[2], ",")
+		return vlib.Res{Impl: strings.Join(server.VerifC10CarrierScript(ops), ","), Oracle: "-", Tags: "nt"}
+	case "fo":
+		return execFailover(f)
 	case "doq":
 		return execDoQ(f)
 	case "pool":
